@@ -193,7 +193,7 @@ def summarize(tier: str, seed: int, merged: dict) -> dict:
             f"{sizes(tier)}; all degree vectors x all status vectors within the deviation bound "
             "(disabled/unloaded; degree alphabets {0, 2^-12, .25, .5, 1} / {0, .25, .5, 1} / {0, .5, 1}) x General, "
             "Proportional, First/Last(n=0..rules+1, t in {0, 2^-12, .25, .3, .5, 1}), "
-            "Highest/Lowest(n=-1..rules+1), Threshold(6 comparators x 6 thresholds); plus batch acceptance/rejection. "
+            "Highest/Lowest(n=-1..rules+1), Threshold(6 comparators x 6 thresholds); plus batch rejection (size 2) and acceptance of one-element arrays. "
             "states = (block, degrees, status, method) configurations, transitions = RuleBlock.activate calls, traces = "
             "reference-model runs compared; non-trivial = at least two loaded rules with positive degree"
         ),
